@@ -108,3 +108,14 @@ Theorem C19_schedules_are_traces :
   forall c sched s s' tr, irun_schedule c sched s [] = Some (s', tr) -> irun_trace c tr s = Some s'.
 Proof. exact (fun c sched s s' tr => irun_schedule_trace c sched s [] s s' tr eq_refl). Qed.
 Print Assumptions C19_schedules_are_traces.
+
+(* the predicate the harness evaluates on observed registry snapshots ([robs_ok]: own
+   completed registrations visible; snapshots pairwise comparable) holds of any two
+   lookups of the model *)
+Theorem C19_robs_ok_of_model :
+  forall c s, rreachable c s ->
+  forall t1 t2 k1 k2, In k1 (r_done (rthr s t1)) -> In k2 (r_done (rthr s t2)) ->
+  exists C1 C2, l_seen k1 = contents c C1 /\ l_seen k2 = contents c C2 /\
+    robs_ok [(l_pre k1, C1); (l_pre k2, C2)] = true.
+Proof. exact robs_ok_of_model. Qed.
+Print Assumptions C19_robs_ok_of_model.
